@@ -519,6 +519,44 @@ def thread_manager(fb):
     return _memo(fb, 'thread_manager', find)
 
 
+def manager_slot(fb, tmb, want):
+    """where a configuration value enters the thread manager: (parameter index (0-based), projection) with `want(type string)`
+    true either for a parameter itself or for a field (at most two levels deep) of a parameter that is a struct of the
+    daemon crate -- a `DaemonConfig { max_drift_ppb, phc_info }` handed over as one argument carries the same two values.
+    None when no slot or more than one candidate is found."""
+    found = []
+
+    def fields_of(tystr, crate):
+        a = crate.adts.get(tystr)
+        if not a or a.get('kind') != 'struct' or not tystr.startswith(DAEMON + '::'):
+            return []
+        return [(i, f['name'], crate.tystr(f['ty'])) for i, f in enumerate(a['variants'][0]['fields'])]
+    for i in range(1, tmb.argc + 1):
+        ts = tmb.tystr(tmb.locals[i]['ty'])
+        if want(ts):
+            found.append((i - 1, ()))
+            continue
+        for fi, fn, fts in fields_of(ts, tmb.crate):
+            if want(fts):
+                found.append((i - 1, (('f', fi, fn),)))
+            else:
+                for gi, gn, gts in fields_of(fts, tmb.crate):
+                    if want(gts):
+                        found.append((i - 1, (('f', fi, fn), ('f', gi, gn))))
+    return found[0] if len(found) == 1 else None
+
+
+def slot_types(fb, tmb, slot):
+    """type strings of the struct(s) a slot's projection goes through (functions building them are configuration plumbing)"""
+    out = []
+    ts = tmb.tystr(tmb.locals[slot[0] + 1]['ty'])
+    for e in slot[1]:
+        out.append(ts)
+        a = tmb.crate.adts.get(ts)
+        ts = tmb.crate.tystr(a['variants'][0]['fields'][e[1]]['ty'])
+    return out
+
+
 def context_type(fb):
     """type string of the per-thread context: the daemon type whose Drop impl sends a message (the death notice)"""
     def find():
@@ -640,6 +678,25 @@ def segment_paths_used(fb):
 
 
 PTR_ADVANCE = ('::add', '::byte_add', '::offset', '::byte_offset', '::wrapping_add', '::wrapping_byte_add')
+
+
+def type_size(crate, tix):
+    """size in bytes of a type-table entry, or None"""
+    t = crate.types[tix]
+    k = t.get('k')
+    if 'size' in t:
+        return int(t['size'])
+    if k in ('int', 'uint', 'float'):
+        return t['bits'] // 8
+    if k == 'bool':
+        return 1
+    if k in ('ptr', 'ref', 'fnptr'):
+        return 8 if crate.types[t['inner']].get('k') not in ('slice', 'str', 'dyn') else 16 if 'inner' in t else 8
+    if k == 'adt':
+        a = crate.adts.get(t['s'])
+        if a and 'size' in a:
+            return int(a['size'])
+    return None
 
 
 def ptr_advance_bytes(fb, ef):
